@@ -75,12 +75,28 @@ func genTopology(t *rapid.T, c *ev.Case, w *world) *world {
 		_, ipn, _ := net.ParseCIDR(cidr)
 		mr := &mRouter{idx: len(w.routers), name: fmt.Sprintf("r%d", len(w.routers)), cidr: ipn, parent: parent, holders: map[string]any{}}
 		cfg.CIDR, cfg.LoggerFactory, cfg.Name = cidr, lf, mr.name
+		// a quarter of the routers delay what they forward, and forwarding itself takes
+		// time there (the capture filter dawdles on every other datagram): delivery, order
+		// and "nothing admitted is lost" hold for such routers as well
+		var dawdle time.Duration
+		if rapid.IntRange(0, 3).Draw(t, "delayed") == 0 {
+			cfg.MinDelay = rapid.SampledFrom([]time.Duration{200 * time.Microsecond, time.Millisecond}).Draw(t, "minDelay")
+			dawdle = cfg.MinDelay * 6 / 5
+			c.Label("router/min-delay")
+		}
 		vr, err := vnet.NewRouter(cfg)
 		if err != nil {
 			t.Fatalf("NewRouter(%s): %v", cidr, err)
 		}
 		idx := mr.idx
+		nth := 0
 		vr.AddChunkFilter(func(ch vnet.Chunk) bool {
+			if dawdle > 0 {
+				nth++
+				if nth%2 == 0 {
+					time.Sleep(dawdle)
+				}
+			}
 			id, ok := payloadID(ch.UserData(), w.nonce)
 			if len(ch.UserData()) == 0 {
 				id, ok = 0, true // the one empty datagram in flight (sequential phase only)
@@ -277,6 +293,11 @@ func (w *world) quiesce() {
 		} else {
 			okRuns = 0
 			if time.Now().After(deadline) {
+				if total >= len(w.routers) && idle == total && queued > 0 {
+					// for five seconds every forwarding loop has been parked while datagrams
+					// wait in a queue (delays are a millisecond at most): they are stuck
+					w.t.Fatalf("C01: %d datagram(s) stay queued in a started router although every forwarding loop is idle: an admitted datagram is not forwarded", queued)
+				}
 				w.t.Fatalf("VERIF-INFRA: the network did not become quiescent (%d of %d router loops idle, %d expected)", idle, total, len(w.routers))
 			}
 			time.Sleep(20 * time.Microsecond)
